@@ -341,7 +341,8 @@ DEAD_FOLLOW = [
     # calls that do not return inside expressions: the blocks they end must not be named as phi sources or left open
     "r += n ? (die(), 0) : 5;", "r += n ? 5 : (die(), 0);", "r += (n && (die(), 1)) + (n || (die(), 0));", "r += f2((die(), n));", "n ? die() : (void)0;",
     "r += n ? (die(), 1) : (die(), 2);", "r += (n ? (die(), 1) : 2) ? 3 : (die(), 4);", "if (n ? (die(), 0) : 1) r++;", "while (n ? 0 : (die(), 1)) r++;",
-    "switch (n ? (die(), 1) : 2) { case 2: r++; }", "r += (int[]){ n ? (die(), 1) : 2, 3 }[0];", "struct pn { int a, b; } w = { n ? (die(), 1) : 2, 3 }; r += w.a;",
+    "switch (n ? (die(), 1) : 2) { case 2: r++; }", "r += (die(), 1) && n;", "r += (die(), 0) || n;", "r += n && ((die(), 1) || n);", "r += ((die(), 1) ? n : 2);",
+    "if ((die(), n)) r++;", "for (; (die(), n); ) r++;", "r += f2(n) + ((die(), 1) && f2(n));", "r += (int[]){ n ? (die(), 1) : 2, 3 }[0];", "struct pn { int a, b; } w = { n ? (die(), 1) : 2, 3 }; r += w.a;",
 ]
 
 
